@@ -254,6 +254,9 @@ def _bi_len(E, args, kwargs, st, node):
             out.append((s, x) if isinstance(x, Raised) else (s, seqs.seq_len(x)))
         return out
     if isinstance(v, ObjV):
+        ext = E.externals.get(v.cls + ".__len__")         # an assumed contract for the length of an opaque object
+        if ext is not None:
+            return [(s_, x_) for s_, x_, _ in ext(E, v, [], {}, st, node)]
         m = E.find_method(v.cls, "__len__")
         if m is None:
             raise EngineError("len() of object %s" % v.cls)
@@ -799,6 +802,14 @@ def call_method(E, recv, name, args, kwargs, st, node):
                 if len(args) > 1:
                     return [(st, args[1])]
                 return E.partial(st, node, 'KeyError', False, NONE)
+        if name == "setdefault" and len(args) == 2:
+            conds = [equal(args[0], k) for k, _ in recv.entries]
+            if all(isinstance(c, bool) for c in conds):
+                for c, (k, v) in zip(conds, recv.entries):
+                    if c:
+                        return [(st, v)]
+                new = E.store(st, node, recv, args[0], args[1])
+                return [(write_recv(E, node, new, st), args[1])]
         raise EngineError("dict.%s on a literal dict" % name)
     if isinstance(recv, ListV):
         if name == "append":
